@@ -529,7 +529,7 @@ func c08(c *core.Ctx) {
 			}
 			// fields of the stream written by methods of the type outside the send family: lifecycle state
 			lifecycle := map[string]bool{}
-			for _, f := range p.LibFuncs("inprocgrpc") {
+			for _, f := range p.LibFuncs(pkgSuffixOf(nt)) {
 				root := f
 				for root.Parent() != nil {
 					root = root.Parent()
